@@ -41,10 +41,26 @@ Proof. exact c09_oracle_exact. Qed.
 Theorem C09_schema_identifiers : forall t k,
   (forall x, In x (ex_ids [] (TT.Model.C10Zod.zex_of [] (conv t) k)) -> x = L "z" \/ exists n, In n (ts_names t) /\ x = schema_name n) /\
   (forall n, In n (ts_names t) -> In (schema_name n) (ex_ids [] (TT.Model.C10Zod.zex_of [] (conv t) k))).
-Proof. exact zex_ids. Qed.
+Proof. exact zex_ids_plain. Qed.
 Theorem C09_struct_identifiers : forall p n x,
   In x (struct_ids p n) <-> x = L "z" \/ exists m, In m (schema_refs p n) /\ x = schema_name m.
-Proof. exact struct_ids_refs. Qed.
+Proof. exact struct_ids_refs_plain. Qed.
+
+(* with configured type mappings (config.type_mappings, also when they name project-defined types): a mapped name is
+   rendered as z.string() / z.number() / z.boolean() / z.custom<X>((val) => true), so the identifiers are z, possibly
+   true, and the schema names of the unmapped custom names; the order does not look at the mappings and the module
+   still satisfies the oracle *)
+Theorem C09_schema_identifiers_mapped : forall (m : list (str * str)) t k,
+  (forall x, In x (ex_ids [] (TT.Model.C10Zod.zex_of m (conv t) k)) ->
+     x = L "z" \/ x = L "true" \/ exists n, In n (ts_names t) /\ TT.Model.C10Zod.lookup m n = None /\ x = schema_name n) /\
+  (forall n, In n (ts_names t) -> TT.Model.C10Zod.lookup m n = None -> In (schema_name n) (ex_ids [] (TT.Model.C10Zod.zex_of m (conv t) k))).
+Proof. exact zex_ids. Qed.
+Theorem C09_module_decl_before_use_mapped : forall (o : orders) (p : project) (m : list (str * str)) cs,
+  ord_ok o -> in_domain p = true ->
+  kf_c07_field_result p = false -> kf_c07_odd_name p = false -> kf_c07_inline_mod p = false ->
+  acyclic (spec_graph p) -> no_params_suffix p = true ->
+  zod_consts_m m o p = Some cs -> decl_before_use cs = true.
+Proof. intros o p m cs Ho Hd K5 K6 K7 Hac Hnp H. exact (module_decl_before_use_m o Ho p Hd K5 K6 K7 Hac Hnp m cs H). Qed.
 
 (* outside the classes every schema reference to a defined type is a recorded dependency *)
 Theorem C09_edges_recorded : forall p, in_domain p = true ->
@@ -129,6 +145,8 @@ Print Assumptions C09_module_decl_before_use.
 Print Assumptions C09_oracle_exact.
 Print Assumptions C09_schema_identifiers.
 Print Assumptions C09_struct_identifiers.
+Print Assumptions C09_schema_identifiers_mapped.
+Print Assumptions C09_module_decl_before_use_mapped.
 Print Assumptions C09_edges_recorded.
 Print Assumptions C09_decl_before_use_recorded_graph.
 Print Assumptions C09_decl_before_use_type_graph.
